@@ -224,6 +224,8 @@ package evaluator
 //@   call NewEnclosedEnv#0: assert loop-scope-encloses-the-caller: arg0 == env
 //@   call Eval#1: assert else-iff-empty: elemsLen == 0 && arg1 == iface(node.Alternative) && arg2 == newEnv
 //@   call Set#0: assert binds-element-in-order: arg0 == newEnv && arg1 == node.Var.Value && arg2 == elems[rangeindex] && i == rangeindex
+//@   call Set#0: bind setErr
+//@   loop 0: continues-only-if every-element-bound-with-the-type-check: setErr == nil
 //@   call SetLoopVar#0: assert loop-meta: arg0 == newEnv && isInt(arg1["index"], i) && isInt(arg1["iter"], i+1)
 //@        && arg1["first"] == boolObj(i == 0) && arg1["last"] == boolObj(i == len(elems)-1)
 //@   call Eval#2: assert body-in-loop-scope: arg1 == iface(node.Block) && arg2 == newEnv
